@@ -98,6 +98,8 @@ def alphabet(ax, n, sp, seed, with_c=False):
     pos("a", "v", -1, -1, m=1.3 * sp)
     pos("a", "v", 0, 0, m=-0.5 * sp)
     pos("a", "v", -1, -1, gm=5)
+    pos("a", "v", -1, -1, m=1.0 * sp, gm=1)  # metric and index margin on the same axis add up
+    pos("b", "a", -1, 1, m=0.7 * sp, gm=1)
     pos("a", "v", 0, 0, axes=[ax, ax2])
     pos("b", "a", -1, 1)
     pos("b", "a", 1, -1)
@@ -481,3 +483,22 @@ def binds(system, slices):
 def describe(system):
     """Compact, replayable description for failure details."""
     return dict(vol=system["vol"], grid=system["grid"], objects=system["objects"], constraints=system["constraints"])
+
+
+def chain_systems(ax, vol, grid, sp, seed):
+    """Dependency chains two objects deep (v <- a <- b <- c), listed out of dependency order by the schedule enumeration:
+    a solver that mis-tracks per-sweep progress resolves them for some orders only."""
+
+    def pos(obj, other, own, oth, m=0.0, gm=0):
+        return dict(k="pos", obj=obj, other=other, axes=[ax], own=[own], oth=[oth], margins=[m], gmargins=[gm])
+
+    def size(obj, other, p=1.0):
+        return dict(k="size", obj=obj, other=other, axes=[ax], other_axes=[ax], props=[p], offsets=[0.0], goffsets=[0])
+
+    T = templates(ax, sp, with_c=True)
+    out = []
+    out.append(make_system(vol, grid, sp, seed, T[7], [pos("a", "v", -1, -1), pos("b", "a", -1, 1), pos("c", "b", -1, 1)]))
+    out.append(make_system(vol, grid, sp, seed, T[7], [pos("a", "v", 0, 0), pos("b", "a", 1, -1), pos("c", "b", 0, 0)]))
+    out.append(make_system(vol, grid, sp, seed, T[5], [pos("a", "v", -1, -1), size("b", "a", 1.0), pos("b", "a", -1, 1), pos("c", "b", -1, 1)]))
+    out.append(make_system(vol, grid, sp, seed, T[7], [pos("c", "v", 1, 1), pos("b", "c", 1, -1), pos("a", "b", 1, -1)]))
+    return [s for s in out if s is not None]
